@@ -6,6 +6,7 @@
 (*   content = Seq(item)                                                    *)
 (*   item    = [k |-> "t",  s    |-> text]                     plain text   *)
 (*           | [k |-> "p",  name |-> text, hasDef, def |-> content]  {{{n|d}}} *)
+(*           | [k |-> "pc", name |-> content, hasDef, def]   {{{computed|d}}} *)
 (*           | [k |-> "c",  name |-> Atom, args |-> Seq(arg)]   {{name|..}} *)
 (*           | [k |-> "if", c, y, n |-> content]                {{#if:c|y|n}} *)
 (*           | [k |-> "eq", a, b, y, n |-> content]             {{#ifeq:..}} *)
@@ -126,6 +127,12 @@ EvalItem(it, f, lib, Dev) ==
          IF ~f.top /\ HasKey(f, key) THEN ValueOf(f, key)
          ELSE IF it.hasDef THEN Eval(it.def, f, lib, Dev)
          ELSE <<"{{{">> \o key \o <<"}}}">>
+    \* {{{computed name|default}}}: the name is itself content, evaluated in the same frame
+    [] it.k = "pc" ->
+         LET key == Trim(Eval(it.name, f, lib, Dev)) IN
+         IF ~f.top /\ HasKey(f, key) THEN ValueOf(f, key)
+         ELSE IF it.hasDef THEN Eval(it.def, f, lib, Dev)
+         ELSE <<"{{{">> \o key \o <<"}}}">>
     [] it.k = "c" ->
          IF it.name \notin DOMAIN lib
          THEN <<"[[:Template:", it.name, "]]">>
@@ -150,6 +157,7 @@ CallsInItem(it) ==
     [] it.k = "l" -> UNION {CallsIn(it.args[i]) : i \in 1..Len(it.args)}
     [] it.k = "x" -> CallsIn(it.c)
     [] it.k = "p" -> IF it.hasDef THEN CallsIn(it.def) ELSE {}
+    [] it.k = "pc" -> CallsIn(it.name) \cup (IF it.hasDef THEN CallsIn(it.def) ELSE {})
     [] it.k = "c" -> {it.name} \cup UNION {CallsIn(it.args[i].val) \cup CallsIn(it.args[i].key) : i \in 1..Len(it.args)}
     [] it.k = "if" -> CallsIn(it.c) \cup CallsIn(it.y) \cup CallsIn(it.n)
     [] it.k = "eq" -> CallsIn(it.a) \cup CallsIn(it.b) \cup CallsIn(it.y) \cup CallsIn(it.n)
